@@ -64,6 +64,16 @@ class Check:
         # runs against a scratch worktree (VERIF_REPO) get their own work directory and do not touch evidence/
         self.alt = os.path.realpath(REPO) != "/repo"
         self.work = os.path.join(WORK, prop + ("-alt-%d" % os.getpid() if self.alt else ""))
+        self.private_work = False
+        if not self.alt:
+            # two runs of the same property at the same time must not share scratch files: the second one gets its own directory
+            os.makedirs(WORK, exist_ok=True)
+            self._work_lock = open(os.path.join(WORK, prop + ".lock"), "w")
+            try:
+                fcntl.flock(self._work_lock, fcntl.LOCK_EX | fcntl.LOCK_NB)
+            except OSError:
+                self.work = os.path.join(WORK, "%s-p%d" % (prop, os.getpid()))
+                self.private_work = True
         os.makedirs(self.work, exist_ok=True)
         os.makedirs(os.path.join(ROOT, "replays"), exist_ok=True)
         self.obligations = 0
